@@ -4,6 +4,7 @@ import (
 	"fmt"
 	"hash/fnv"
 	"sort"
+	"strings"
 	"sync"
 	"time"
 )
@@ -51,6 +52,10 @@ func (r *R) Thorough() bool { return r.Tier == "thorough" }
 // (schedule + operations + faults).  It never draws from the tape and never reads a clock.
 func (r *R) Logf(format string, args ...any) {
 	s := fmt.Sprintf(format, args...)
+	if r.Dir != "" && strings.Contains(s, r.Dir) {
+		// scratch paths carry the pid and a per-process run counter: not part of the run
+		s = strings.ReplaceAll(s, r.Dir, "$RUN")
+	}
 	r.mu.Lock()
 	h := fnv.New64a()
 	h.Write([]byte(s))
